@@ -19,9 +19,17 @@ PREFIX_RE = re.compile(r"^[A-Z]=$")
 _FOLD = [None]   # (module -> fold) set per run: lets the syntax helpers fold module-level constants such as PREFIX = "C="
 
 
-def _strconst(n: ast.AST, mod=None):
+def _strconst(n: ast.AST, mod=None, cls=None):
     if isinstance(n, ast.Constant) and isinstance(n.value, str):
         return n.value
+    if isinstance(n, ast.Attribute) and isinstance(n.value, ast.Name) and n.value.id in ("self", "cls") and cls is not None:
+        # a class-level constant of the filter class (e.g. index_prefix = "C=")
+        for c in cls.mro:
+            v = c.attrs.get(n.attr)
+            if isinstance(v, ast.Constant) and isinstance(v.value, str):
+                return v.value
+            if v is not None:
+                break
     if isinstance(n, (ast.Name, ast.Attribute)) and _FOLD[0] is not None and mod is not None:
         v = _FOLD[0](mod, n)
         if isinstance(v, str):
@@ -29,13 +37,13 @@ def _strconst(n: ast.AST, mod=None):
     return None
 
 
-def key_prefixes(fn_node: ast.AST, mod=None) -> Set[str]:
+def key_prefixes(fn_node: ast.AST, mod=None, cls=None) -> Set[str]:
     """Segment prefixes ("C=", "P=", "A=") a function concatenates into index keys."""
     out = set()
     for n in [fn_node] + list(walk_local(fn_node)):
         if isinstance(n, ast.BinOp) and isinstance(n.op, ast.Add):
             for side in (n.left, n.right):
-                v = _strconst(side, mod)
+                v = _strconst(side, mod, cls)
                 if v is not None and PREFIX_RE.match(v):
                     out.add(v)
         if isinstance(n, ast.JoinedStr):
@@ -78,7 +86,7 @@ def x1(ctx):
         if ik is None:
             continue
         ctx.functions_analysed.add(ik.qualname)
-        for p in key_prefixes(ik.node, ik.module):
+        for p in key_prefixes(ik.node, ik.module, ik.cls):
             produced.setdefault(p, []).append(ik.qualname)
     if len(produced) < 2:
         raise AnalysisError("index_keys methods produce only %s" % sorted(produced))
@@ -103,7 +111,7 @@ def x2(ctx):
         if ik is None or mi is None:
             continue
         _FOLD[0] = ctx.P.try_fold
-        pk, ck = key_prefixes(ik.node, ik.module), key_prefixes(mi.node, mi.module)
+        pk, ck = key_prefixes(ik.node, ik.module, ik.cls), key_prefixes(mi.node, mi.module, mi.cls)
         if not ck:
             continue
         ctx.functions_analysed.update([ik.qualname, mi.qualname])
@@ -229,19 +237,44 @@ def x4(ctx):
 def x5(ctx):
     obs = []
     rs = ctx.own_method("xandikos.store.index.MemoryIndex", "reset")
+    # the tables add_values fills (whatever they are called and however they are organised) ...
+    av0 = ctx.own_method("xandikos.store.index.MemoryIndex", "add_values")
+
+    def self_attr(e):
+        """`self.X` at the root of a subscript / attribute chain."""
+        while isinstance(e, (ast.Subscript, ast.Call)):
+            e = e.value if isinstance(e, ast.Subscript) else e.func
+        d = dotted(e)
+        if d and d.startswith("self.") :
+            return ".".join(d.split(".")[:2])
+        return None
+
+    filled = set()
+    for n in walk_local(av0.node):
+        if isinstance(n, (ast.Assign, ast.AugAssign)):
+            for t in (n.targets if isinstance(n, ast.Assign) else [n.target]):
+                if isinstance(t, ast.Subscript) and self_attr(t):
+                    filled.add(self_attr(t))
+        if isinstance(n, ast.Call) and isinstance(n.func, ast.Attribute) and n.func.attr in ("add", "setdefault", "update", "append", "extend", "__setitem__"):
+            a_ = self_attr(n.func.value)
+            if a_:
+                filled.add(a_)
+    if len(filled) < 2:
+        raise AnalysisError("MemoryIndex.add_values: expected a values table and an 'indexed etags' table, found %s" % sorted(filled))
+    # ... are all re-initialised by reset
     assigned = set()
     for n in walk_local(rs.node):
-        if isinstance(n, ast.Assign):
-            for t in n.targets:
+        if isinstance(n, (ast.Assign, ast.AnnAssign)):
+            for t in (n.targets if isinstance(n, ast.Assign) else [n.target]):
                 d = dotted(t)
-                if d in ("self._indexes", "self._in_index"):
+                if d in filled:
                     assigned.add(d)
-        if isinstance(n, ast.Call) and isinstance(n.func, ast.Attribute) and n.func.attr == "clear" and dotted(n.func.value) in ("self._indexes", "self._in_index"):
+        if isinstance(n, ast.Call) and isinstance(n.func, ast.Attribute) and n.func.attr == "clear" and dotted(n.func.value) in filled:
             assigned.add(dotted(n.func.value))
-    obs.append(ctx.ob(assigned == {"self._indexes", "self._in_index"}, rs.qualname, rs.where, "reset re-initialises both tables",
+    obs.append(ctx.ob(assigned == filled, rs.qualname, rs.where, "reset re-initialises both tables",
                       "reset clears %s" % sorted(assigned),
                       "MemoryIndex.reset leaves %s untouched: after the key set changes, old entries (computed for the old key set) are "
-                      "served for the new keys" % sorted({"self._indexes", "self._in_index"} - assigned)))
+                      "served for the new keys" % sorted(filled - assigned)))
     av = ctx.own_method("xandikos.store.index.MemoryIndex", "add_values")
     cfg = ctx.cfg(av)
     marks = [n for n in cfg.stmt_nodes() for c in n.calls() if dotted(c.func) == "self._in_index.add"]
